@@ -469,6 +469,8 @@ def gen_conc() -> str:
                "  sibling_cancel_before_plan && plan_commit_is_store_mark_push && acquire_claim_shape_ok &&\n"
                "  steal_requires_owner_complete_or_missing && sweep_deletes_only_complete_executions && claim_key_unique_per_execution &&\n"
                "  join_bump_before_push && complete_stage_retries_whole_body && signal_buffer_bumps_version_without_push.")
+    from harness.translate import processor_failure_path
+    out.append(processor_failure_path())
     return "\n".join(out) + "\n"
 
 
